@@ -166,4 +166,55 @@ let () =
          done
        with End_of_file -> ());
       print_string (Buffer.contents buf)
+  | "intrin" ->
+      let ic = open_in Sys.argv.(2) in
+      let pr2 (a, b) = Buffer.add_string buf (Printf.sprintf "R %016Lx %016Lx\n" (i64_of_n a) (i64_of_n b)) in
+      let pr4 (((a, b), c), d) = Buffer.add_string buf (Printf.sprintf "R %016Lx %016Lx %016Lx %016Lx\n" (i64_of_n a) (i64_of_n b) (i64_of_n c) (i64_of_n d)) in
+      (try
+         while true do
+           let t = split (input_line ic) in
+           if Array.length t > 0 then begin
+             let a i = n_of_hex64 t.(i + 1) in
+             let v2 i = (a i, a (i + 1)) in
+             let v4 i = (((a i, a (i + 1)), a (i + 2)), a (i + 3)) in
+             let mem16 () = { mbytes = List.concat_map (fun x -> to_le_bytes (nat_of_int 8) x) [a 0; a 1]; maddr = N0 } in
+             match t.(0) with
+             | "mm_add_epi64" -> pr2 (mm_add_epi64 (v2 0) (v2 2))
+             | "mm_mul_epu32" -> pr2 (mm_mul_epu32 (v2 0) (v2 2))
+             | "mm_andnot_si128" -> pr2 (mm_andnot_si128 (v2 0) (v2 2))
+             | "mm_srli_epi64_32" -> pr2 (mm_srli_epi64 (v2 0) (n_of_int 32))
+             | "mm_srli_epi64_62" -> pr2 (mm_srli_epi64 (v2 0) (n_of_int 62))
+             | "mm_srli_epi64_63" -> pr2 (mm_srli_epi64 (v2 0) (n_of_int 63))
+             | "mm_shuffle_epi32_b1" -> pr2 (mm_shuffle_epi32 (v2 0) (n_of_int 0xB1))
+             | "mm_shuffle_epi8" -> pr2 (mm_shuffle_epi8 (v2 0) (v2 2))
+             | "mm_insert_epi32_3" -> pr2 (mm_insert_epi32_3 (v2 0) (a 2))
+             | "mm_slli_si128_8" -> pr2 (mm_slli_si128_8 (v2 0))
+             | "mm_sll_epi32" -> pr2 (mm_sll_epi32 (v2 0) (v2 2))
+             | "mm_srl_epi32" -> pr2 (mm_srl_epi32 (v2 0) (v2 2))
+             | "mm_cmpgt_epi32" -> pr2 (mm_cmpgt_epi32 (v2 0) (v2 2))
+             | "mm_set1_epi32" -> pr2 (mm_set1_epi32 (a 0))
+             | "mm_cvtsi64_si128" -> pr2 (mm_cvtsi64_si128 (a 0))
+             | "mm_maskload_epi32" -> (match mm_maskload_epi32 (mem16 ()) O (v2 2) with Ok v -> pr2 v | _ -> Buffer.add_string buf "FAULT\n")
+             | "mm256_add_epi64" -> pr4 (mm256_add_epi64 (v4 0) (v4 4))
+             | "mm256_mul_epu32" -> pr4 (mm256_mul_epu32 (v4 0) (v4 4))
+             | "mm256_andnot_si256" -> pr4 (mm256_andnot_si256 (v4 0) (v4 4))
+             | "mm256_shuffle_epi8" -> pr4 (mm256_shuffle_epi8 (v4 0) (v4 4))
+             | "mm256_shuffle_epi32_b1" -> pr4 (mm256_shuffle_epi32 (v4 0) (n_of_int 0xB1))
+             | "mm256_permutevar8x32_epi32" -> pr4 (mm256_permutevar8x32_epi32 (v4 0) (v4 4))
+             | "mm256_sllv_epi32" -> pr4 (mm256_sllv_epi32 (v4 0) (v4 4))
+             | "mm256_srlv_epi32" -> pr4 (mm256_srlv_epi32 (v4 0) (v4 4))
+             | "mm256_sub_epi32" -> pr4 (mm256_sub_epi32 (v4 0) (v4 4))
+             | "mm256_unpacklo_epi64" -> pr4 (mm256_unpacklo_epi64 (v4 0) (v4 4))
+             | "mm256_cmpeq_epi64" -> pr4 (mm256_cmpeq_epi64 (v4 0) (v4 4))
+             | "mm256_srli_epi64_32" -> pr4 (mm256_srli_epi64 (v4 0) (n_of_int 32))
+             | "mm256_srli_epi64_62" -> pr4 (mm256_srli_epi64 (v4 0) (n_of_int 62))
+             | "mm256_srli_epi64_63" -> pr4 (mm256_srli_epi64 (v4 0) (n_of_int 63))
+             | "mm256_slli_epi64_63" -> pr4 (mm256_slli_epi64 (v4 0) (n_of_int 63))
+             | "mm256_slli_si256_8" -> pr4 (mm256_slli_si256_8 (v4 0))
+             | "mm256_broadcastd_epi32" -> pr4 (mm256_broadcastd_epi32 (v2 0))
+             | _ -> Buffer.add_string buf "UNKNOWN\n"
+           end
+         done
+       with End_of_file -> ());
+      print_string (Buffer.contents buf)
   | _ -> prerr_endline "usage: driver run <script> <dev|release> <cfg> [addr] | spec <file>"; exit 2
